@@ -12,6 +12,7 @@ from cfg import CFG
 from flow import Flow, call_sites, arg_local, last_seg
 from bounds import slice_len_upper
 from sym import PathSym, enum_paths, prefix_to, feasible, walk, show
+from tables import enum_switches, exclusive_regions
 
 ERR = "error::PdfError"
 CIPHER_CALLS = ("new_from_slices", "decrypt_padded_mut", "encrypt_padded_mut")
@@ -253,6 +254,41 @@ def rule_exempt(ctx, f):
         ctx.check(ok, "C06-G2", "parser::parse_with_lexer#no-context", "members of object streams would be decrypted a second time",
                   p["span"], detail="parse_with_lexer passes ctx = None")
 
+    # ... and the compressed arm of the object lookup does not bring a decoder of its own: the member bytes come out of an object
+    # stream that was decrypted as a whole
+    lk = [b for b in f.bodies.values() if call_sites(b, lambda n, t: n == "xref::XRefTable::get") and
+          call_sites(b, lambda n, t: last_seg(n) == "parse_indirect_object")]
+    ctx.floor("C06-G2", len(lk), 1, "object lookup (XRefTable::get + parse_indirect_object)")
+    for b in lk:
+        cfg = CFG(b)
+        xv = {v["vi"]: v["name"] for v in f.adts["xref::XRef"]["variants"]}
+        sws = enum_switches(b, "xref::XRef", f)
+        if not sws:
+            ctx.lost("C06-G2", "switch on the xref entry in " + b["id"])
+            continue
+        i, pl, arms, other = sws[0]
+        regs = exclusive_regions(cfg, {xv[k]: tg for k, tg in arms.items()})
+        out = {}
+        for vn in ("Raw", "Stream"):
+            reg = regs.get(vn, set()) | {arms[k] for k in arms if xv[k] == vn}
+            uses = False
+            for r in reg:
+                bb = b["blocks"][r]
+                for st in bb["stmts"]:
+                    if st[0] == "assign":
+                        rv = st[2]
+                        pls = [rv[1]] if rv[0] in ("ref", "rawptr", "discr") else [F.op_place(o) for o in ([rv[1]] if rv[0] == "use" else [])]
+                        for q in pls:
+                            if q and any(e[0] == "field" and e[2] == "decoder" for e in q[1:]):
+                                uses = True
+                        if rv[0] == "aggregate" and rv[1].get("adt") == "parser::Context":
+                            uses = True
+            out[vn] = uses
+        ctx.check(out.get("Raw") and not out.get("Stream"), "C06-G2", b["id"] + "#decoder-arms",
+                  "the decoder reaches the parser in the arms %s of the object lookup (expected: the direct arm only - members of an object stream were "
+                  "decrypted with the stream and would be decrypted twice)" % sorted(k for k, v in out.items() if v), b["blocks"][i]["term"]["span"],
+                  detail="Storage.decoder is read in the Raw arm only")
+
 
 def rule_identity(ctx, f):
     ctx.rule("C06-PROV", "the PlainRef given to Decoder::decrypt for strings is the one read from the `n g obj` header; the stream's "
@@ -492,6 +528,40 @@ def rule_table(ctx, f):
                           detail="%s -> %s" % (vn, want[vn]))
 
 
+def rule_padding(ctx, f):
+    ctx.rule("C06-PAD", "AES strings and streams end in 1..=16 padding bytes (a block-aligned plaintext gets a whole block of 0x10): the data cipher strips "
+             "PKCS#7 padding; the key-unwrapping ciphers of revisions 5/6 use none")
+    want = {"crypt::Decoder::decrypt": "Pkcs7", "crypt::Decoder::from_password": "NoPadding", "crypt::Decoder::revision_6_kdf": "NoPadding"}
+    n = 0
+    for bid, pad in want.items():
+        b = f.body(bid)
+        if b is None:
+            ctx.lost("C06-PAD", bid)
+            continue
+        for k, (bi, t) in enumerate(call_sites(b, lambda nm, t: last_seg(nm) in ("decrypt_padded_mut", "encrypt_padded_mut", "decrypt_padded_vec_mut", "encrypt_padded_vec_mut",
+                                                                                 "decrypt_padded_b2b_mut", "encrypt_padded_b2b_mut"))):
+            n += 1
+            got = [last_seg(x) for x in (t.get("targs") or [])[1:]]
+            ok = got == [pad]
+            if not ok and pad == "Pkcs7" and got == ["NoPadding"]:
+                # hand-written unpadding: the pad byte is compared with the block size inclusively (n <= 16 / n > 16 / n < 17 / n >= 17)
+                cmps = set()
+                todo = [b] + [f.bodies[t2.get("resolved")] for _, t2 in F.calls(b) if t2.get("resolved_local") and t2.get("resolved") in f.bodies]
+                for x in todo:
+                    for i, j, st in F.stmts(x):
+                        if st[0] == "assign" and st[2][0] == "binop" and st[2][1] in ("Lt", "Le", "Gt", "Ge"):
+                            for side, o in ((0, st[2][2]), (1, st[2][3])):
+                                c = F.const_int(o)
+                                if c in (16, 17):
+                                    op = st[2][1] if side == 1 else {"Lt": "Gt", "Le": "Ge", "Gt": "Lt", "Ge": "Le"}[st[2][1]]
+                                    cmps.add((op, c))
+                ok = bool(cmps & {("Le", 16), ("Gt", 16), ("Lt", 17), ("Ge", 17)}) and not (cmps & {("Lt", 16), ("Ge", 16)})
+            ctx.check(ok, "C06-PAD", "%s#padding@%d" % (bid, k), "the cipher call uses padding %s (expected %s): %s" % (
+                got, pad, "plaintexts whose length is a multiple of 16 keep their 16 padding bytes" if pad == "Pkcs7" else "the unwrapped file key is rejected or cut"),
+                t["span"], detail="%s::<%s>" % (last_seg(F.callee_name(t)), pad))
+    ctx.floor("C06-PAD", n, 4, "padded cipher calls (2 data ciphers, 2 key ciphers)")
+
+
 def run(ctx):
     f = F.load("default")
     ctx.count("bodies", len(f.bodies))
@@ -503,9 +573,10 @@ def run(ctx):
     rule_identity(ctx, f)
     rule_wrongpw(ctx, f)
     rule_table(ctx, f)
+    rule_padding(ctx, f)
     return ctx.finish(
         "Static analysis of MIR facts of crypt.rs / file.rs / parser: slice-length upper bounds of cipher keys against the "
         "cipher's key size; dominance of decrypt over filter application; dominance of the three exemption tests over every "
         "cipher use; provenance of the object id given to decrypt; must-pass-through of InvalidPassword on every failed "
-        "comparison; V / CFM tables. Key derivation, padding and per-object key bytes are value-level and not decided.",
+        "comparison; V / CFM tables; padding scheme per cipher call. Key derivation bytes are value-level and not decided.",
         ["rustc nightly MIR construction", "mirx exporter", "key sizes 16/32 read from the cipher type names Aes128/Aes256"])
